@@ -6,10 +6,13 @@ parses it and symbolically executes the statements over z3 terms:
   statements : Assign / AugAssign / AnnAssign (to a local name or to `self.<attr>`), If/else (both
                branches executed and merged with If-then-else terms unless the test folds to a
                constant), `while` (unrolled `unroll` times + an unwinding obligation), Pass,
-               docstrings, a trailing `return expr`
+               docstrings, a trailing `return expr`, `raise` (ends the path; recorded as the obligation
+               "this point is unreachable" with its path condition)
   expressions: names, `self.<attr>` reads, int/float constants, + - * / (and // in the exact mode),
                unary minus, comparisons (also chained), and/or/not, truthiness of numbers,
-               math.floor(x), random.random()   (callees are resolved through fn.__globals__ and
+               math.floor(x), random.random(), isinstance(x, datetime.timedelta) (decided from the declared
+               kind of x), datetime.timedelta(<int keyword constants>), timedelta / timedelta and
+               timedelta // timedelta (exact mode; a timedelta is its integer microsecond count)   (callees are resolved through fn.__globals__ and
                compared BY IDENTITY with the stdlib function - a name that merely looks like one
                is not accepted)
 
@@ -60,9 +63,15 @@ class RealMode:
     name = "real"
 
     def var(self, name, kind):
+        if kind == "opaque":
+            return V("opaque", None)
+        if kind == "td":                       # datetime.timedelta as an integer number of microseconds
+            return V("td", z3.Int(name))
         return V(kind, z3.Int(name) if kind == "int" else z3.Real(name))
 
     def const(self, c):
+        if c is None:
+            return V("opaque", None)
         if isinstance(c, bool):
             return V("bool", z3.BoolVal(c))
         if isinstance(c, int):
@@ -76,16 +85,21 @@ class RealMode:
         raise Unsupported("constant %r" % (c,))
 
     def num(self, v):
-        if v.kind == "bool":
-            raise Unsupported("bool used as a number")
+        if v.kind not in ("int", "float"):
+            raise Unsupported("%s used as a number" % v.kind)
         return v.term
 
     def fl(self, v):
         return z3.ToReal(v.term) if v.kind == "int" else self.num(v)
 
     def binop(self, op, a, b, tr):
-        if a.kind == "bool" or b.kind == "bool":
-            raise Unsupported("arithmetic on bool")
+        if a.kind == "td" and b.kind == "td" and op in ("/", "//"):
+            # timedelta / timedelta -> float (exact ratio of the microsecond counts); // -> int (floor)
+            tr.need("division by zero", b.term != 0)
+            q = V("float", z3.ToReal(a.term) / z3.ToReal(b.term))
+            return q if op == "/" else self.floor(q, tr)
+        if a.kind in ("bool", "td", "opaque") or b.kind in ("bool", "td", "opaque"):
+            raise Unsupported("arithmetic on %s %s %s" % (a.kind, op, b.kind))
         both_int = a.kind == "int" and b.kind == "int"
         if op in ("+", "-", "*"):
             x, y = (a.term, b.term) if both_int else (self.fl(a), self.fl(b))
@@ -113,15 +127,21 @@ class RealMode:
         return V("int", k)
 
     def cmp(self, op, a, b):
+        if a.kind not in ("int", "float") or b.kind not in ("int", "float"):
+            raise Unsupported("comparison of %s and %s" % (a.kind, b.kind))
         x, y = (a.term, b.term) if (a.kind == b.kind) else (self.fl(a), self.fl(b))
         return {"<": x < y, "<=": x <= y, ">": x > y, ">=": x >= y, "==": x == y, "!=": x != y}[op]
 
     def truthy(self, a):
         if a.kind == "bool":
             return a.term
+        if a.kind not in ("int", "float"):
+            raise Unsupported("truthiness of " + a.kind)
         return a.term != 0
 
     def ite(self, c, a, b):
+        if "opaque" in (a.kind, b.kind) or "td" in (a.kind, b.kind):
+            raise Unsupported("merge of %s and %s" % (a.kind, b.kind))
         if a.kind != b.kind:
             if "bool" in (a.kind, b.kind):
                 raise Unsupported("merge of bool and number")
@@ -147,6 +167,8 @@ class FPMode:
         return V("float", z3.FP(name, self.sort))
 
     def const(self, c):
+        if c is None:
+            return V("opaque", None)
         if isinstance(c, bool):
             return V("bool", z3.BoolVal(c))
         if isinstance(c, int):
@@ -361,9 +383,32 @@ class _Tr:
             ts = [v.term for v in vs]
             return V("bool", z3.And(*ts) if isinstance(e.op, ast.And) else z3.Or(*ts))
         if isinstance(e, ast.Call):
+            f = self.resolve(e.func)
+            import datetime as _dt
+            if f is _dt.timedelta and not e.args:
+                # constant timedelta from integer keyword arguments -> microseconds
+                unit = dict(weeks=604800 * 10 ** 6, days=86400 * 10 ** 6, hours=3600 * 10 ** 6, minutes=60 * 10 ** 6,
+                            seconds=10 ** 6, milliseconds=1000, microseconds=1)
+                us = 0
+                for kw in e.keywords:
+                    if kw.arg not in unit or not isinstance(kw.value, ast.Constant) or \
+                            type(kw.value.value) is not int:
+                        raise Unsupported("timedelta(%s=...) with a non-constant / non-integer argument" % kw.arg)
+                    us += unit[kw.arg] * kw.value.value
+                if self.m.name != "real":
+                    raise Unsupported("timedelta in FP mode")
+                return V("td", z3.IntVal(us))
             if e.keywords:
                 raise Unsupported("keyword arguments")
-            f = self.resolve(e.func)
+            if f is isinstance and len(e.args) == 2:
+                v = self.expr(e.args[0])
+                t = self.resolve(e.args[1])
+                if t is _dt.timedelta:
+                    if v.kind == "td":
+                        return V("bool", z3.BoolVal(True))
+                    if v.kind in ("int", "float"):
+                        return V("bool", z3.BoolVal(False))
+                raise Unsupported("isinstance(%s, %r)" % (v.kind, t))
             if f is math.floor and len(e.args) == 1:
                 return m.floor(self.expr(e.args[0]), self)
             if f is random.random and not e.args:
@@ -405,8 +450,13 @@ class _Tr:
         self.locals, self.fields = out
 
     def block(self, stmts, top=False):
+        """returns True when the block always ends in `raise` (dead end)"""
         for i, s in enumerate(stmts):
             self.k.nodes += 1
+            if isinstance(s, ast.Raise):
+                # reaching a raise is an obligation of its own: (label, path condition, must_hold=False)
+                self.need("raise reachable: " + ast.unparse(s)[:60], z3.BoolVal(False))
+                return True
             if isinstance(s, ast.Expr) and isinstance(s.value, ast.Constant):
                 continue                                  # docstring
             if isinstance(s, ast.Pass):
@@ -431,21 +481,32 @@ class _Tr:
             if isinstance(s, ast.If):
                 c = self.cond(s.test)
                 if z3.is_true(c):
-                    self.block(s.body)
+                    if self.block(s.body):
+                        return True
                 elif z3.is_false(c):
-                    self.block(s.orelse)
+                    if self.block(s.orelse):
+                        return True
                 else:
                     s0 = self.snapshot()
                     self.path.append(c)
-                    self.block(s.body)
+                    dead_t = self.block(s.body)
                     st = self.snapshot()
                     self.path.pop()
                     self.restore(s0)
                     self.path.append(z3.Not(c))
-                    self.block(s.orelse)
+                    dead_e = self.block(s.orelse)
                     se = self.snapshot()
                     self.path.pop()
-                    self.merge(c, st, se)
+                    if dead_t and dead_e:
+                        return True
+                    if dead_t:                      # only the else side continues: its condition stays on the path
+                        self.restore(se)
+                        self.path.append(z3.Not(c))
+                    elif dead_e:
+                        self.restore(st)
+                        self.path.append(c)
+                    else:
+                        self.merge(c, st, se)
                 continue
             if isinstance(s, ast.While):
                 if s.orelse:
@@ -478,11 +539,12 @@ class _Tr:
                 self.k.ret = None if s.value is None else self.expr(s.value)
                 continue
             raise Unsupported("statement " + type(s).__name__)
+        return False
 
 
 def _walk_break(node):
     for n in ast.walk(node):
-        if isinstance(n, (ast.Break, ast.Continue, ast.Try, ast.With, ast.For, ast.Raise, ast.Yield,
+        if isinstance(n, (ast.Break, ast.Continue, ast.Try, ast.With, ast.For, ast.Yield,
                           ast.Await, ast.Lambda, ast.Global, ast.Nonlocal)):
             raise Unsupported("construct " + type(n).__name__)
 
@@ -498,7 +560,7 @@ def translate(fn, mode, fields, args, unroll=0):
     if fd.decorator_list:
         raise Unsupported("decorated function")
     a = fd.args
-    if a.vararg or a.kwarg or a.kwonlyargs or a.defaults or a.posonlyargs:
+    if a.vararg or a.kwarg or a.kwonlyargs or a.posonlyargs:        # (defaults: every argument must be declared)
         raise Unsupported("signature")
     _walk_break(fd)
     names = [x.arg for x in a.args]
@@ -575,7 +637,7 @@ def eval_real(kernel, term, values):
     subs = []
     for name, val in values.items():
         var = kernel.inputs[name] if isinstance(name, str) else name
-        subs.append((var, rv(val)))
+        subs.append((var, z3.IntVal(int(val)) if z3.is_int(var) else rv(val)))
     # witnesses in creation order (later ones may mention earlier ones)
     for k, x in kernel.witnesses:
         xv = z3.simplify(z3.substitute(x, *subs))
